@@ -82,7 +82,7 @@ def codec_level(ctx, drv):
 def session_level(ctx, drv, fast, only):
     # ---- 3. real session
     plan = [  # (mode, n, ops/rounds, k)
-        ("probe", 7, 0, 1),
+        ("probe", 8, 0, 1),
         ("seq", 60 if fast else ctx.pick(200, 2500), 12, 1),
         ("burst", ctx.pick(30, 300), 3, 3),
         ("burst", ctx.pick(6, 60), 2, 8),
@@ -108,6 +108,9 @@ def session_level(ctx, drv, fast, only):
         return
     if ctx.extra.get("traces_abandoned_env", 0) * 10 > ctx.cov["evaluations"] - 1215:
         raise vlib.MachineryError("more than 10%% of the histories were abandoned for environment failures (%d)" % ctx.extra["traces_abandoned_env"])
+    for tag in ("add.take-noport", "add.check-duplicate", "add.check-storage", "add.write-db-fault", "addmagnet.write-db-fault", "remove.dbdel-fault"):
+        if ctx.obligation_counts.get("C14.leak." + tag, 0) == 0:
+            raise vlib.MachineryError("failure point %s was never driven (vacuous run)" % tag)
     if ctx.obligation_counts.get("C14.obs", 0) == 0 or ctx.obligation_counts.get("C14.restart", 0) == 0:
         raise vlib.MachineryError("core obligations were never evaluated (vacuous run)")
 
@@ -193,6 +196,11 @@ def account(ctx, traces):
         ctx.oblig("C14.obs", sum(1 for e in evs if e["op"] == "obs"))
         ctx.oblig("C14.add", sum(1 for e in calls if e["name"] == "Add"))
         ctx.oblig("C14.add.failing", sum(1 for e in calls if e["name"] == "Add" and e.get("r_res") != "ok"))
+        # failure points of the multi-step operations (C14.leak): each must be driven, not only modelled
+        for cls, tag in (("noport", "take-noport"), ("dup", "check-duplicate"), ("storage", "check-storage"), ("dbwrite", "write-db-fault")):
+            ctx.oblig("C14.leak.add." + tag, sum(1 for e in calls if e["name"] == "Add" and e.get("r_res") == cls))
+        ctx.oblig("C14.leak.addmagnet.write-db-fault", sum(1 for e in calls if e["name"] == "Add" and e.get("kind") == "magnet" and e.get("r_res") == "dbwrite"))
+        ctx.oblig("C14.leak.remove.dbdel-fault", sum(1 for e in calls if e["name"] == "Remove" and e.get("dbfail")))
         ctx.oblig("C14.remove", sum(1 for e in calls if e["name"] == "Remove"))
         ctx.oblig("C14.restart", sum(1 for e in calls if e["name"] == "Reopen"))
         ctx.oblig("C14.compact", sum(1 for e in calls if e["name"] == "Compact"))
